@@ -221,8 +221,10 @@ type step struct {
 	v    octosql.Value
 }
 
-// exhaustive enumerates every valid history of length exactly n over dom (its prefixes are the shorter ones).
-func exhaustive(dom []octosql.Value, n int, emit func([]step)) {
+// exhaustive enumerates every history of length exactly n over dom (its prefixes are the shorter ones).
+// free = false: only histories in which no prefix retracts an absent class; free = true: every interleaving,
+// retractions may come before the additions they cancel (negative intermediate multiplicities).
+func exhaustive(dom []octosql.Value, n int, free bool, emit func([]step)) {
 	cls := classes(dom)
 	cnt := make([]int, len(dom))
 	cur := make([]step, 0, n)
@@ -242,7 +244,7 @@ func exhaustive(dom []octosql.Value, n int, emit func([]step)) {
 			cur = cur[:len(cur)-1]
 		}
 		for i := range dom {
-			if cnt[cls[i]] > 0 {
+			if free || cnt[cls[i]] > 0 {
 				cur = append(cur, step{true, dom[i]})
 				cnt[cls[i]]--
 				rec()
@@ -254,21 +256,52 @@ func exhaustive(dom []octosql.Value, n int, emit func([]step)) {
 	rec()
 }
 
-// randomHistory: a valid history of length n over dom; retractions may name any member of a present class.
-func randomHistory(r *lib.Rng, dom []octosql.Value, n int) []step {
+// randomHistory: a history of length n over dom; retractions may name any member of a present class, and
+// (early > 0) with probability early/10 a retraction names a value that is absent or already owed; owed values are
+// then added back preferentially so that the net multiset is a multiset again for long stretches.
+func randomHistory(r *lib.Rng, dom []octosql.Value, n int, early int) []step {
 	cls := classes(dom)
 	cnt := make([]int, len(dom))
-	total := 0
+	total, owed := 0, 0 // members present; retractions owed
 	var h []step
 	draining := false
+	bump := func(i, d int) {
+		c := cnt[cls[i]]
+		if c > 0 {
+			total -= c
+		} else {
+			owed += c
+		}
+		c += d
+		cnt[cls[i]] = c
+		if c > 0 {
+			total += c
+		} else {
+			owed -= c
+		}
+	}
 	for len(h) < n {
 		if total == 0 {
 			draining = false
 		} else if !draining && r.Chance(1, 25) {
 			draining = true // run the multiset down to empty now and then
 		}
-		retract := total > 0 && (draining || r.Chance(2, 5))
-		if retract {
+		switch {
+		case owed > 0 && r.Chance(1, 2): // pay back an early retraction
+			var cands []int
+			for i := range dom {
+				if cnt[cls[i]] < 0 {
+					cands = append(cands, i)
+				}
+			}
+			i := cands[r.Intn(len(cands))]
+			bump(i, 1)
+			h = append(h, step{false, dom[i]})
+		case early > 0 && r.Chance(early, 10): // a retraction that arrives before its addition
+			i := r.Intn(len(dom))
+			bump(i, -1)
+			h = append(h, step{true, dom[i]})
+		case total > 0 && (draining || r.Chance(2, 5)):
 			var cands []int
 			for i := range dom {
 				if cnt[cls[i]] > 0 {
@@ -276,13 +309,11 @@ func randomHistory(r *lib.Rng, dom []octosql.Value, n int) []step {
 				}
 			}
 			i := cands[r.Intn(len(cands))]
-			cnt[cls[i]]--
-			total--
+			bump(i, -1)
 			h = append(h, step{true, dom[i]})
-		} else {
+		default:
 			i := r.Intn(len(dom))
-			cnt[cls[i]]++
-			total++
+			bump(i, 1)
 			h = append(h, step{false, dom[i]})
 		}
 	}
@@ -392,25 +423,58 @@ func main() {
 	if thorough {
 		exLen, nRandom, randLen = 4, 12, 150
 	}
-	cf.Side.Rule = fmt.Sprintf("every prototype of aggregates.Aggregates (%d overloads incl. DISTINCT): all valid add/retract histories of length %d "+
-		"(hence all shorter ones, as prefixes) over a seed-chosen 3-value domain per overload (one overload per run also at length %d), plus %d random valid histories "+
-		"of length up to %d over edge-heavy 4..10-value domains (duplicates, MinInt64/MaxInt64, NaN payloads, +-0, +-Inf, equal instants in different zones, nested lists); "+
-		"Trigger() after every Add; non-trivial = at least one retraction and a non-empty net multiset after at least two Adds; distinct by full case text",
-		len(protos), exLen, exLen+1, nRandom, randLen)
+	cf.Side.Rule = fmt.Sprintf("every prototype of aggregates.Aggregates (%d overloads incl. DISTINCT), Trigger() after every Add: "+
+		"(a) all add/retract histories of length %d in which no prefix retracts an absent class, over a seed-chosen 3-value domain per overload; "+
+		"(b) ALL interleavings of length %d over a 2-value sub-domain (retractions may precede the additions they cancel: negative intermediate multiplicities)%s; "+
+		"(c) one overload per run also at length %d (valid over 3 values or free over 2 values); "+
+		"(d) %d random histories of length up to %d over edge-heavy 4..10-value domains (duplicates, MinInt64/MaxInt64, NaN payloads, +-0, +-Inf, equal instants in different zones, nested lists), half of them with early retractions; "+
+		"the oracle applies at every step whose net multiset has no negative class and is non-empty (counted in steps_where_the_oracle_applies); "+
+		"non-trivial = at least one retraction and at least two such steps; distinct by full case text",
+		len(protos), exLen, exLen, map[bool]string{true: " and of length 3 over the 3-value domain", false: ""}[thorough], exLen+1, nRandom, randLen)
 
+	stepsChecked := 0
 	addCase := func(p proto, h []step, tag string) {
 		out, addPanic := runImpl(p, h)
-		retractions, nonEmptySteps, total := 0, 0, 0
+		// signed multiplicity per Compare-class along the history: which steps does the property speak about?
+		var reps []octosql.Value
+		var nets []int
+		retractions, checkedSteps, checkedAfterEarly := 0, 0, 0
+		early := false
 		nonFinite, absSum := false, 0.0
 		for _, s := range h {
+			ci := -1
+			for j := range reps {
+				if reps[j].Compare(s.v) == 0 {
+					ci = j
+					break
+				}
+			}
+			if ci < 0 {
+				reps, nets = append(reps, s.v), append(nets, 0)
+				ci = len(reps) - 1
+			}
 			if s.retr {
 				retractions++
-				total--
+				nets[ci]--
+				if nets[ci] < 0 {
+					early = true
+				}
 			} else {
-				total++
+				nets[ci]++
 			}
-			if total > 0 {
-				nonEmptySteps++
+			neg, pos := false, false
+			for _, c := range nets {
+				if c < 0 {
+					neg = true
+				} else if c > 0 {
+					pos = true
+				}
+			}
+			if pos && !neg {
+				checkedSteps++
+				if early {
+					checkedAfterEarly++
+				}
 			}
 			if s.v.TypeID == octosql.TypeIDFloat {
 				if math.IsNaN(s.v.Float) || math.IsInf(s.v.Float, 0) {
@@ -420,8 +484,12 @@ func main() {
 				}
 			}
 		}
+		total := 0
+		for _, c := range nets {
+			total += c
+		}
 		js := map[string]interface{}{"aggregate": p.name, "model_kind": p.kind, "history": jsonHist(h), "trigger_after_each_add": jsonObs(out)}
-		idx := cf.Add(fmt.Sprintf("(%s, %s, %s)", p.kind, coqHist(h), coqObs(out)), js, retractions > 0 && nonEmptySteps >= 2)
+		idx := cf.Add(fmt.Sprintf("(%s, %s, %s)", p.kind, coqHist(h), coqObs(out)), js, retractions > 0 && checkedSteps >= 2)
 		cf.Count(tag + ":" + strings.SplitN(p.name, "#", 2)[0])
 		if retractions > 0 {
 			cf.Count("with_retraction")
@@ -429,6 +497,14 @@ func main() {
 		if total == 0 {
 			cf.Count("ends_empty")
 		}
+		if early {
+			cf.Count("with_early_retraction")
+		}
+		if checkedAfterEarly > 0 {
+			cf.Count("oracle_applies_after_an_early_retraction")
+		}
+		cf.Side.Distribution["steps_where_the_oracle_applies"] = stepsChecked + checkedSteps
+		stepsChecked += checkedSteps
 		if p.floatSum {
 			// known-finding classes, decided on the input alone
 			if nonFinite {
@@ -440,7 +516,7 @@ func main() {
 			}
 		}
 		if addPanic != nil {
-			cf.Violation(idx, fmt.Sprintf("%s: Add panicked on a valid history: %v", p.name, addPanic), "")
+			cf.Violation(idx, fmt.Sprintf("%s: Add panicked: %v", p.name, addPanic), "")
 		}
 		for i, o := range out {
 			if o.panicSite == 99 {
@@ -454,10 +530,27 @@ func main() {
 		r := rng.Fork()
 		doms := smallDomains(p.arg)
 		dom := doms[r.Intn(len(doms))]
-		exhaustive(dom, exLen, func(h []step) { addCase(p, h, "exhaustive") })
+		exhaustive(dom, exLen, false, func(h []step) { addCase(p, h, "exhaustive") })
+		// every interleaving, early retractions included, over two of the three values of another domain
+		domF := doms[r.Intn(len(doms))]
+		drop := r.Intn(3)
+		var two []octosql.Value
+		for i, v := range domF {
+			if i != drop {
+				two = append(two, v)
+			}
+		}
+		exhaustive(two, exLen, true, func(h []step) { addCase(p, h, "exhaustive_free") })
+		if thorough {
+			exhaustive(domF, 3, true, func(h []step) { addCase(p, h, "exhaustive_free3") })
+		}
 		if pi == deep {
 			dom2 := doms[r.Intn(len(doms))]
-			exhaustive(dom2, exLen+1, func(h []step) { addCase(p, h, "exhaustive_deep") })
+			if r.Bool() {
+				exhaustive(dom2, exLen+1, false, func(h []step) { addCase(p, h, "exhaustive_deep") })
+			} else {
+				exhaustive(dom2[:2], exLen+1, true, func(h []step) { addCase(p, h, "exhaustive_free_deep") })
+			}
 		}
 		for i := 0; i < nRandom; i++ {
 			rr := r.Fork()
@@ -465,7 +558,11 @@ func main() {
 			if strings.Contains(p.kind, "KArray") && n > 120 {
 				n = 120 // the observation after every step is the whole array
 			}
-			addCase(p, randomHistory(rr, pool(rr, p), n), "random")
+			early := 0
+			if i%2 == 1 {
+				early = 2
+			}
+			addCase(p, randomHistory(rr, pool(rr, p), n, early), "random")
 		}
 	}
 	if err := cf.Write(f.Out); err != nil {
